@@ -34,3 +34,7 @@ Definition null : ptr := None.
 Definition del (h : heap) (i : positive) : heap := fun j => if Pos.eqb j i then None else h j.
 Definition free_node (p : ptr) : M unit :=
   fun h => match p with Some i => match h i with Some _ => Ok (tt, del h i) | None => Crash end | None => Crash end.
+(* tbl->compare(searched key, key of node p): the comparator's answer is a function kc of the node (the keys of node objects
+   do not change in put_obj); calling it on NULL / an unallocated object reads freed or no memory: Crash *)
+Definition cmp_key (kc : positive -> BinNums.Z) (p : ptr) : M BinNums.Z :=
+  fun h => match p with Some i => match h i with Some _ => Ok (kc i, h) | None => Crash end | None => Crash end.
